@@ -216,7 +216,7 @@ func VerifCancelRestores() {
 		verifrt.Assert(cerr == nil, "C05-cancel-accepted")
 	} else {
 		verifrt.AwaitQuiescence()
-		verifrt.Advance(11 * time.Second)
+		verifrt.Advance(vTxnTimeout + 200*time.Millisecond)
 		verifrt.AwaitQuiescence()
 	}
 	verifrt.Reach("ended")
